@@ -386,6 +386,16 @@ func (w *World) rootCalleesThroughWrappers(c ssa.CallInstruction) []*ssa.Functio
 	var cands []*ssa.Function
 	if f := staticCallee(c); f != nil {
 		cands = append(cands, f)
+		// closures handed to library functions that invoke them synchronously
+		if calleeName(c) == "(*sync.Once).Do" {
+			for _, a := range c.Common().Args {
+				if mc, ok := a.(*ssa.MakeClosure); ok {
+					if cf, ok := mc.Fn.(*ssa.Function); ok {
+						cands = append(cands, cf)
+					}
+				}
+			}
+		}
 	} else if n := w.CG.Nodes[c.Parent()]; n != nil {
 		for _, e := range n.Out {
 			if e.Site == c && e.Callee != nil && e.Callee.Func != nil {
